@@ -161,7 +161,9 @@ func c17Project(t *pt.Table, prevDeadline int64) string {
 	in, part := 0, 0
 	for _, ps := range st.PlayerStates {
 		banks = append(banks, int(ps.Bankroll))
-		if ps.IsIn {
+		// (only the three players the scenario seats in itself: right after a reservation the engine's auto seat-in
+		// group may complete at once and seat the newcomer in, or not - see DESIGN 8.3)
+		if ps.IsIn && (ps.PlayerID == "p0" || ps.PlayerID == "p1" || ps.PlayerID == "p2") {
 			in++
 		}
 		if ps.IsParticipated {
@@ -210,6 +212,16 @@ func (r *c17Runner) waitFor(what string, pred func(t *pt.Table) bool) bool {
 	dl := time.Now().Add(6 * time.Second)
 	for time.Now().Before(dl) {
 		if pred(r.table()) {
+			// the engine assigns the hand state first and the action deadline of the new turn afterwards, outside any
+			// lock this reader could take: a look in between saw "turn started, no deadline" in one run and the deadline
+			// in the other (seed 2 case 461 under load). Give the deadline up to 50 ms to appear.
+			for i := 0; i < 200; i++ {
+				t := r.table()
+				if gs := t.State.GameState; gs == nil || gs.Status.CurrentEvent != "RoundStarted" || t.State.CurrentActionEndAt != 0 {
+					break
+				}
+				time.Sleep(250 * time.Microsecond)
+			}
 			time.Sleep(300 * time.Microsecond) // let the publishing goroutine finish
 			return true
 		}
@@ -704,22 +716,29 @@ func c17Isolation(c *h.Ctx) {
 			}
 		}
 	}
-	// a parked table is quiet only once its open has finished publishing (the first request can be visible a moment
-	// before the last notification of the open): wait until no table's update serial has moved for 5 ms
-	for stable, last, tries := 0, int64(-1), 0; stable < 10 && tries < 4000; tries++ {
-		var sum int64
-		for _, id := range ids {
-			if e, err := m.GetTableEngine(id); err == nil {
-				sum += e.GetTable().UpdateSerial
+	// the tables are quiet when no update serial has moved for 5 ms: a parked table may still be publishing the tail
+	// of its open, and a call on one table (the last ready signal, say) lets that table's hand move on by itself a
+	// moment after the call has returned - neither may fall into the window in which another table's call is judged
+	quiet := func() {
+		for stable, last, tries := 0, int64(-1), 0; stable < 10 && tries < 4000; tries++ {
+			var sum int64
+			for _, id := range ids {
+				if e, err := m.GetTableEngine(id); err == nil {
+					sum += e.GetTable().UpdateSerial
+					if gs := e.GetTable().State.GameState; gs != nil {
+						sum += gs.UpdatedAt % 1000003
+					}
+				}
 			}
+			if sum == last {
+				stable++
+			} else {
+				stable, last = 0, sum
+			}
+			time.Sleep(500 * time.Microsecond)
 		}
-		if sum == last {
-			stable++
-		} else {
-			stable, last = 0, sum
-		}
-		time.Sleep(500 * time.Microsecond)
 	}
+	quiet()
 	snap := func() map[string][]byte {
 		out := map[string][]byte{}
 		for _, id := range ids {
@@ -748,6 +767,7 @@ func c17Isolation(c *h.Ctx) {
 		if _, err := m.GetTableEngine(x); err != nil {
 			continue
 		}
+		quiet()
 		before := snap()
 		_, err := viaManager{m, x}.call(name, a)
 		time.Sleep(300 * time.Microsecond)
